@@ -84,6 +84,9 @@ def build_driver():
         toml = open(os.path.join(src, "Cargo.toml")).read().replace('path = "/repo"', 'path = "%s"' % os.path.realpath(REPO))
         open(os.path.join(DRIVER_DIR, "Cargo.toml"), "w").write(toml)
         shutil.copy(os.path.join(src, "src", "main.rs"), os.path.join(DRIVER_DIR, "src", "main.rs"))
+        os.makedirs(os.path.join(DRIVER_DIR, "src", "bin"), exist_ok=True)
+        for fn in os.listdir(os.path.join(src, "src", "bin")):
+            shutil.copy(os.path.join(src, "src", "bin", fn), os.path.join(DRIVER_DIR, "src", "bin", fn))
         if os.path.exists(os.path.join(src, "Cargo.lock")):
             shutil.copy(os.path.join(src, "Cargo.lock"), os.path.join(DRIVER_DIR, "Cargo.lock"))
     r = sh(["cargo", "build", "--release", "--offline", "--quiet"], cwd=DRIVER_DIR, env=env)
